@@ -19,7 +19,14 @@ func (e *Eng) loopSpec(n ast.Node) (*LoopSpec, int) {
 }
 
 func (e *Eng) invCtx(st *State, pos token.Pos) *ctx {
-	return &ctx{st: st, old: e.entry, env: e.entryEnvFor(), spec: true, noOblig: true, pkg: e.pkg, scopePos: pos, bound: map[string]Val{}}
+	return &ctx{st: st, old: e.entry, loopOld: e.curLoopEntry, env: e.entryEnvFor(), spec: true, noOblig: true, pkg: e.pkg, scopePos: pos, bound: map[string]Val{}}
+}
+
+// enterLoop records the state at loop entry for entry(...) in invariants.
+func (e *Eng) enterLoop(st *State) func() {
+	saved := e.curLoopEntry
+	e.curLoopEntry = st.clone()
+	return func() { e.curLoopEntry = saved }
 }
 
 func (e *Eng) entryEnvFor() map[string]Val {
@@ -72,6 +79,7 @@ func (e *Eng) forLoop(s *ast.ForStmt, st *State) []Out {
 		st = outs[0].st
 	}
 	pos := s.Body.Lbrace + 1
+	defer e.enterLoop(st)()
 	e.checkInvs(ls, no, "init", st, pos)
 	h := st.clone()
 	e.loopHavoc(s, h)
@@ -155,6 +163,7 @@ func (e *Eng) rangeLoop(s *ast.RangeStmt, st *State) []Out {
 	if !indexed {
 		return e.opaqueRange(s, st, ls, no, keyObj, valObj, x)
 	}
+	defer e.enterLoop(st)()
 	// entry: i = 0
 	ent := st.clone()
 	if keyObj != nil {
@@ -219,6 +228,7 @@ func (e *Eng) rangeLoop(s *ast.RangeStmt, st *State) []Out {
 // functions: the loop variables are unconstrained in every iteration.
 func (e *Eng) opaqueRange(s *ast.RangeStmt, st *State, ls *LoopSpec, no int, keyObj, valObj *types.Var, x Val) []Out {
 	pos := s.Body.Lbrace + 1
+	defer e.enterLoop(st)()
 	e.checkInvs(ls, no, "init", st, pos)
 	h := st.clone()
 	e.loopHavoc(s.Body, h)
